@@ -2,7 +2,7 @@
 # Runs every claimed check (quick tier by default) on the unchanged tree and reports exit codes;
 # used to refresh /verif/evidence before committing.
 TIER=${1:-quick}; shift
-cd /verif
+cd "$(dirname "$0")/.."
 IDS=${@:-$(cat tools/ready.txt)}
 for p in $IDS; do
   out=$(./check $p --tier $TIER 2>&1); rc=$?
